@@ -1,7 +1,7 @@
 #!/usr/bin/env python3
 """write /verif/baseline_shapes.json from the CURRENT /repo tree (run on the clean tree only): per unit and extracted function, the names it calls
 and the number of closure expressions in its source text. check.py uses it for the new-construct rule (DESIGN 9.3)."""
-import sys, os, json, subprocess
+import sys, os, json, subprocess, hashlib
 sys.path.insert(0, '/verif')
 from vf import gen
 if subprocess.run(['git', '-C', '/repo', 'diff', '--quiet']).returncode != 0:
@@ -12,6 +12,6 @@ for unit in sorted(os.listdir('/verif/units')):
         continue
     u = gen.Unit(unit, '/verif/units/%s/unit.rs' % unit)
     u.generate()
-    out[unit] = {r.selector: {'callees': r.callees, 'closures': r.n_closures} for r in u.records if r.kind == 'fn'}
+    out[unit] = {r.selector: {'callees': r.callees, 'closures': r.n_closures, 'skeleton': hashlib.sha256(r.skeleton.encode()).hexdigest()[:12], 'aids': r.aid_ctx} for r in u.records if r.kind == 'fn'}
 json.dump(out, open('/verif/baseline_shapes.json', 'w'), indent=0, sort_keys=True)
 print('units', len(out), 'functions', sum(len(v) for v in out.values()))
